@@ -15,6 +15,12 @@ const KEY_A: Pubkey = Pubkey::new_from_array([
     31, 32,
 ]);
 
+// a second fixed address, pinned under the NAMED validate id where the default id pins KEY_A
+const KEY_B: Pubkey = Pubkey::new_from_array([
+    201, 3, 77, 150, 9, 18, 240, 61, 5, 99, 128, 33, 64, 17, 250, 2, 81, 44, 190, 7, 13, 222, 101, 58, 36, 175, 90, 12, 203, 66,
+    149, 28,
+]);
+
 #[derive(StarFrameProgram)]
 #[program(instruction_set = (), id = PROG_ID, no_entrypoint, skip_idl)]
 pub struct HProg;
@@ -43,6 +49,108 @@ pub struct Nested {
     pub inner: AddrSigner,
 }
 
+// ---- the address pinned under a NON-default validate id (`strict`, selected by the validate argument `Strict`) ----
+/// validate argument of the validate id `strict`
+#[derive(Debug, Default, Clone, Copy)]
+pub struct Strict;
+
+// pinned under `strict` only
+#[derive(AccountSet, Debug)]
+#[account_set(skip_default_idl)]
+#[validate(id = "strict", arg = Strict)]
+pub struct StrictPlain {
+    #[validate(id = "strict", address = &KEY_A)]
+    pub f: AccountInfo,
+}
+#[derive(AccountSet, Debug)]
+#[account_set(skip_default_idl)]
+#[validate(id = "strict", arg = Strict)]
+pub struct StrictSigner {
+    #[validate(id = "strict", address = &KEY_A)]
+    pub f: Signer<AccountInfo>,
+}
+#[derive(AccountSet, Debug)]
+#[account_set(skip_default_idl)]
+#[validate(id = "strict", arg = Strict)]
+pub struct StrictMutSigner {
+    #[validate(id = "strict", address = &KEY_A)]
+    pub f: Signer<Mut<AccountInfo>>,
+}
+#[derive(AccountSet, Debug)]
+#[account_set(skip_default_idl)]
+#[validate(id = "strict", arg = Strict)]
+pub struct StrictSystem {
+    #[validate(id = "strict", address = &KEY_A)]
+    pub f: Mut<SystemAccount>,
+}
+// the named id forwarded to a nested set
+#[derive(AccountSet, Debug)]
+#[account_set(skip_default_idl)]
+#[validate(id = "strict", arg = Strict)]
+pub struct StrictNested {
+    #[validate(id = "strict", arg = Strict)]
+    pub inner: StrictSigner,
+}
+// pinned under BOTH ids (same key)
+#[derive(AccountSet, Debug)]
+#[account_set(skip_default_idl)]
+#[validate(id = "strict", arg = Strict)]
+pub struct BothPlain {
+    #[validate(address = &KEY_A)]
+    #[validate(id = "strict", address = &KEY_A)]
+    pub f: AccountInfo,
+}
+#[derive(AccountSet, Debug)]
+#[account_set(skip_default_idl)]
+#[validate(id = "strict", arg = Strict)]
+pub struct BothMutSigner {
+    #[validate(address = &KEY_A)]
+    #[validate(id = "strict", address = &KEY_A)]
+    pub f: Signer<Mut<AccountInfo>>,
+}
+// the two ids pin DIFFERENT keys: default KEY_A, strict KEY_B
+#[derive(AccountSet, Debug)]
+#[account_set(skip_default_idl)]
+#[validate(id = "strict", arg = Strict)]
+pub struct TwoKeysSigner {
+    #[validate(address = &KEY_A)]
+    #[validate(id = "strict", address = &KEY_B)]
+    pub f: Signer<AccountInfo>,
+}
+
+/// `T` validated with `()` (the default validate id)
+pub struct ViaDefault<T>(std::marker::PhantomData<T>);
+/// `T` validated with `Strict` (the validate id `strict`)
+pub struct ViaStrict<T>(std::marker::PhantomData<T>);
+/// what `fam!` needs of an entry: the plain and the `Option<_>` runner
+trait Entry {
+    fn plain(accs: &[AccountInfo], ctx: &mut Context) -> Result<i128>;
+    fn opt(accs: &[AccountInfo], ctx: &mut Context) -> Result<i128>;
+}
+impl<T> Entry for ViaDefault<T>
+where
+    T: for<'a> star_frame::account_set::TryFromAccountsWithArgs<'a, (), ()>,
+{
+    fn plain(accs: &[AccountInfo], ctx: &mut Context) -> Result<i128> { plain::<T>(accs, ctx) }
+    fn opt(accs: &[AccountInfo], ctx: &mut Context) -> Result<i128> { opt::<T>(accs, ctx) }
+}
+impl<T> Entry for ViaStrict<T>
+where
+    T: for<'a> AccountSetDecode<'a, ()> + AccountSetValidate<Strict>,
+{
+    fn plain(accs: &[AccountInfo], ctx: &mut Context) -> Result<i128> {
+        let mut s = accs;
+        let mut set = <T as AccountSetDecode<()>>::decode_accounts(&mut s, (), ctx)?;
+        set.validate_accounts(Strict, ctx).map(|_| -1)
+    }
+    fn opt(accs: &[AccountInfo], ctx: &mut Context) -> Result<i128> {
+        let mut s = accs;
+        let mut set = <Option<T> as AccountSetDecode<()>>::decode_accounts(&mut s, (), ctx)?;
+        set.validate_accounts(Strict, ctx)?;
+        Ok(set.is_some() as i128)
+    }
+}
+
 type Runner = fn(&[AccountInfo], &mut Context) -> Result<i128>;
 
 fn plain<T>(accs: &[AccountInfo], ctx: &mut Context) -> Result<i128>
@@ -63,43 +171,63 @@ where
 macro_rules! fam {
     ($($sig:expr => $t:ty),* $(,)?) => {
         fn family() -> Vec<(&'static str, Runner, Runner)> {
-            vec![ $( ($sig, plain::<$t> as Runner, opt::<$t> as Runner) ),* ]
+            vec![ $( ($sig, <$t as Entry>::plain as Runner, <$t as Entry>::opt as Runner) ),* ]
         }
     };
 }
-// signature: layers in check order; S M s0 s1 m0 m1 Psys Pown Yrent Yinst Yslot Aa SA
+// signature: layers in check order; S M s0 s1 m0 m1 Psys Pown Yrent Yinst Yslot Aa Ab SA, then b / . (no check) and last xN
 fam! {
-    "" => AccountInfo,
-    "S" => Signer<AccountInfo>,
-    "M" => Mut<AccountInfo>,
-    "S M" => Mut<Signer<AccountInfo>>,
-    "M S" => Signer<Mut<AccountInfo>>,
-    "s0" => MaybeSigner<false, AccountInfo>,
-    "s1" => MaybeSigner<true, AccountInfo>,
-    "m0" => MaybeMut<false, AccountInfo>,
-    "m1" => MaybeMut<true, AccountInfo>,
-    "s1 m0" => MaybeMut<false, MaybeSigner<true, AccountInfo>>,
-    "m1 s0" => MaybeSigner<false, MaybeMut<true, AccountInfo>>,
-    "m1 s1 M S" => Signer<Mut<MaybeSigner<true, MaybeMut<true, AccountInfo>>>>,
-    "m0 s0 M S" => Signer<Mut<MaybeSigner<false, MaybeMut<false, AccountInfo>>>>,
-    "Psys" => Program<System>,
-    "Pown" => Program<HProg>,
-    "Pown M" => Mut<Program<HProg>>,
-    "Yrent" => Sysvar<Rent>,
-    "Yinst" => Sysvar<InstructionsSysvar>,
-    "Yslot" => Sysvar<SlotHashesSysvar>,
-    "Yrent M" => Mut<Sysvar<Rent>>,
-    "SA" => SystemAccount,
-    "SA M" => Mut<SystemAccount>,
-    "SA M S" => Signer<Mut<SystemAccount>>,
-    "SA S M" => Mut<Signer<SystemAccount>>,
-    "Aa" => AddrPlain,
-    "Aa S" => AddrSigner,
-    "Aa M S" => AddrMutSigner,
-    "Aa S ." => Nested,
-    "S b" => Box<Signer<AccountInfo>>,
-    "b S" => Signer<Box<AccountInfo>>,
-    "SA M b S" => Signer<Box<Mut<SystemAccount>>>,
+    "" => ViaDefault<AccountInfo>,
+    "S" => ViaDefault<Signer<AccountInfo>>,
+    "M" => ViaDefault<Mut<AccountInfo>>,
+    "S M" => ViaDefault<Mut<Signer<AccountInfo>>>,
+    "M S" => ViaDefault<Signer<Mut<AccountInfo>>>,
+    "s0" => ViaDefault<MaybeSigner<false, AccountInfo>>,
+    "s1" => ViaDefault<MaybeSigner<true, AccountInfo>>,
+    "m0" => ViaDefault<MaybeMut<false, AccountInfo>>,
+    "m1" => ViaDefault<MaybeMut<true, AccountInfo>>,
+    "s1 m0" => ViaDefault<MaybeMut<false, MaybeSigner<true, AccountInfo>>>,
+    "m1 s0" => ViaDefault<MaybeSigner<false, MaybeMut<true, AccountInfo>>>,
+    "m1 s1 M S" => ViaDefault<Signer<Mut<MaybeSigner<true, MaybeMut<true, AccountInfo>>>>>,
+    "m0 s0 M S" => ViaDefault<Signer<Mut<MaybeSigner<false, MaybeMut<false, AccountInfo>>>>>,
+    "Psys" => ViaDefault<Program<System>>,
+    "Pown" => ViaDefault<Program<HProg>>,
+    "Pown M" => ViaDefault<Mut<Program<HProg>>>,
+    "Yrent" => ViaDefault<Sysvar<Rent>>,
+    "Yinst" => ViaDefault<Sysvar<InstructionsSysvar>>,
+    "Yslot" => ViaDefault<Sysvar<SlotHashesSysvar>>,
+    "Yrent M" => ViaDefault<Mut<Sysvar<Rent>>>,
+    "SA" => ViaDefault<SystemAccount>,
+    "SA M" => ViaDefault<Mut<SystemAccount>>,
+    "SA M S" => ViaDefault<Signer<Mut<SystemAccount>>>,
+    "SA S M" => ViaDefault<Mut<Signer<SystemAccount>>>,
+    "Aa" => ViaDefault<AddrPlain>,
+    "Aa S" => ViaDefault<AddrSigner>,
+    "Aa M S" => ViaDefault<AddrMutSigner>,
+    "Aa S ." => ViaDefault<Nested>,
+    "S b" => ViaDefault<Box<Signer<AccountInfo>>>,
+    "b S" => ViaDefault<Signer<Box<AccountInfo>>>,
+    "SA M b S" => ViaDefault<Signer<Box<Mut<SystemAccount>>>>,
+    // the address pinned under the non-default validate id `strict`.  The marker xN (code 10 N, LAST in the layer list; the
+    // model stops decoding there and so ignores it) tells the shapes apart: x1 pinned under `strict` only, validated through
+    // `strict`; x2 pinned under both ids, through `strict`; x3 pinned under both ids, through the default id; x4 pinned under
+    // `strict` only, validated through the DEFAULT id (no address check applies: no address layer); x5 / x6 the default id pins
+    // KEY_A and `strict` pins KEY_B, validated through `strict` / through the default id
+    "Aa x1" => ViaStrict<StrictPlain>,
+    "Aa S x1" => ViaStrict<StrictSigner>,
+    "Aa M S x1" => ViaStrict<StrictMutSigner>,
+    "Aa SA M x1" => ViaStrict<StrictSystem>,
+    "Aa S . x1" => ViaStrict<StrictNested>,
+    "Aa x2" => ViaStrict<BothPlain>,
+    "Aa M S x2" => ViaStrict<BothMutSigner>,
+    "Aa x3" => ViaDefault<BothPlain>,
+    "Aa M S x3" => ViaDefault<BothMutSigner>,
+    "x4" => ViaDefault<StrictPlain>,
+    "S x4" => ViaDefault<StrictSigner>,
+    "M S x4" => ViaDefault<StrictMutSigner>,
+    "S . x4" => ViaDefault<StrictNested>,
+    "Ab S x5" => ViaStrict<TwoKeysSigner>,
+    "Aa S x6" => ViaDefault<TwoKeysSigner>,
 }
 
 // ---- Vec<T> of single-account sets: decode n accounts, validate with one of the four argument forms ----
@@ -210,6 +338,7 @@ fn sig_of(layers: &[i128]) -> Option<String> {
             }
             "A" => {
                 if eq(KEY_A) { Some("Aa".into()) }
+                else if eq(KEY_B) { Some("Ab".into()) }
                 else if eq(Rent::id()) { Some("Yrent".into()) }
                 else if eq(InstructionsSysvar::id()) { Some("Yinst".into()) }
                 else if eq(SlotHashesSysvar::id()) { Some("Yslot".into()) }
@@ -230,6 +359,13 @@ fn sig_of(layers: &[i128]) -> Option<String> {
             // 8 / 9: structural markers without a check (Box, nested struct); the model skips them
             8 => { toks.push("b".into()); i += 1; }
             9 => { toks.push(".".into()); i += 1; }
+            // 10 N: which validate id pins the address / validates the set (see fam!).  The model's decode_layers stops at
+            // this code, so it must be the LAST entry of the layer list
+            10 => {
+                if i + 2 != layers.len() { return None; }
+                toks.push(format!("x{}", layers[i + 1]));
+                i += 2;
+            }
             _ => return None,
         }
     }
@@ -243,7 +379,7 @@ fn main() {
         // print the constants the generator needs
         for (sig, _, _) in family() { println!("sig {sig}"); }
         let p = |n: &str, k: Pubkey| println!("key {n} {}", k.to_bytes().iter().map(|b| b.to_string()).collect::<Vec<_>>().join(" "));
-        p("sys", System::ID); p("own", PROG_ID); p("a", KEY_A); p("rent", Rent::id());
+        p("sys", System::ID); p("own", PROG_ID); p("a", KEY_A); p("b", KEY_B); p("rent", Rent::id());
         p("inst", InstructionsSysvar::id()); p("slot", SlotHashesSysvar::id());
         return;
     }
